@@ -24,6 +24,11 @@ def standin_clifford_circuits(tier, seed):
     cases, fails, distinct = 0, [], set()
     one = [cirq.H, cirq.S, cirq.X, cirq.Y, cirq.Z, cirq.X ** 0.5, cirq.Y ** -0.5, cirq.Z ** 1.5, cirq.SingleQubitCliffordGate.X_sqrt, cirq.SingleQubitCliffordGate.Z_nsqrt]
     two = [cirq.CNOT, cirq.CZ, cirq.SWAP, cirq.ISWAP, cirq.CliffordGate.CNOT, cirq.CliffordGate.CZ, cirq.CliffordGate.SWAP]
+    # whole turns that are the identity only up to a phase (the CH form carries the phase), shifted powers, inverse / large exponents
+    one += [cirq.rz(2 * np.pi), cirq.rz(-2 * np.pi), cirq.rx(2 * np.pi), cirq.ry(6 * np.pi), cirq.ZPowGate(exponent=2, global_shift=0.25), cirq.ZPowGate(exponent=-2, global_shift=0.25),
+            cirq.XPowGate(exponent=2, global_shift=0.5), cirq.YPowGate(exponent=4, global_shift=0.125), cirq.ZPowGate(exponent=1, global_shift=-0.5), cirq.HPowGate(exponent=2, global_shift=0.25), cirq.Z ** -0.5, cirq.X ** 3]
+    two += [cirq.CZPowGate(exponent=2, global_shift=0.25), cirq.ISwapPowGate(exponent=4, global_shift=0.25), cirq.SwapPowGate(exponent=2, global_shift=0.5), cirq.CNOT ** -1, cirq.ISWAP ** -1,
+            cirq.XXPowGate(exponent=1, global_shift=-0.5), cirq.ZZ ** 2, cirq.CXPowGate(exponent=2, global_shift=0.125)]
     for it in range(60 if tier == "quick" else 1500):
         n = rng.choice([1, 2, 3, 3, 4])
         qs = cirq.LineQubit.range(n)
